@@ -1,6 +1,7 @@
 """./check configuration for C17."""
 
 PROP = dict(
+    technique='Lean labelled transition systems with a 19-clause inductive invariant over all interleavings, sound acceptors for recorded histories, regenerated synchronisation skeletons; stress + race detector on the implementation',
     race=True,
     module="GolibsVerif.Theorems.C17", namespace="GolibsVerif.C17",
     rule="scenarios run on the real code with real goroutines behind a start barrier (C17.once: N goroutines over overlapping key "
